@@ -1,6 +1,8 @@
 """C12 — attenuated signal: trailing-window spread vs thresholds (DESIGN §4 C12)."""
 from __future__ import annotations
 
+import numpy as np
+
 from vfw import client, gen, models
 
 LEVEL = "exploration"
@@ -44,7 +46,7 @@ def run(ctx) -> None:
     ctx.require("attenuated.window_edge_on_sample", 100)
     nmax = ctx.pick(10, 24)
     for it in range(ctx.pick(2600, 9000)):
-        n = rng.choice([1, 2, 3, 4, 5, 6, 8, nmax])
+        n = rng.choice([1, 2, 3, 4, 5, 6, 8, nmax, nmax, 60, ctx.pick(150, 400)])
         regular = rng.random() < 0.5
         D = rng.choice([1, 60, 900])
         t = gen.regular(n, D) if regular else gen.irregular(rng, n, steps=(1, 2, 3, 60, 61, 900, 3600))
@@ -93,17 +95,17 @@ def run(ctx) -> None:
         elif r < 0.8:
             inp = list(x)
         else:  # masked array hiding a finite value that would change the spread if it were read
-            import numpy as np
+
             inp = np.ma.MaskedArray(np.array([rng.choice([50.0, -50.0, 0.0]) if v is None else v for v in x], dtype=float),
                                     mask=[v is None for v in x])
         kw = {"inp": inp, "tinp": gen.times(t, carrier),
-              "suspect_threshold": st, "fail_threshold": ft, "check_type": kind}
+              "suspect_threshold": gen.ptype(rng, st), "fail_threshold": gen.ptype(rng, ft), "check_type": kind}
         if period is not None:
-            kw["test_period"] = period
+            kw["test_period"] = gen.ptype(rng, period)
         if min_obs is not None:
-            kw["min_obs"] = min_obs
+            kw["min_obs"] = rng.choice([min_obs, np.int64(min_obs)])
         if min_period is not None:
-            kw["min_period"] = min_period
+            kw["min_period"] = gen.ptype(rng, min_period)
         o, _ = client.expect(ctx, "C12", "qartod.attenuated_signal_test", kw,
                              lambda: models.attenuated(x, t, st, ft, period, min_obs, min_period, kind),
                              logical={"x": x, "t": t, "suspect_threshold": st, "fail_threshold": ft,
